@@ -251,7 +251,7 @@ class Interp:
 
     def op_swap(self, pos, v, i, j):
         a, b = self.arg(i), self.arg(j)
-        if self.kind in ("int", "tup"):
+        if self.kind in ("int", "tup") and (i == j or pos % 2 == 0):
             t = self.fresh("t")
             self.line(f"{t} = {v}[{a}]")
             self.line(f"{v}[{a}] = {v}[{b}]")
